@@ -12,7 +12,9 @@ property side, beyond the model: every public functional of pfhedge.nn.functiona
 from its signature) on caller tensors of four memory layouts under the same monitor; histories in
 which the INSTRUMENT objects are reused (dtype changes, re-simulation, other path counts) vs newly
 constructed instruments holding bit-identical buffers; feature OBJECTS shared between bindings /
-hedgers vs feature objects of their own.
+hedgers vs feature objects of their own; histories of the `hedge=` argument (default, explicit underlier,
+listed derivatives on the derivative's underlier; fit(hedge=...) followed by calls with the default) while the
+underlier of the listed instruments is re-simulated / cast through other owners, vs a newly constructed world.
 """
 import copy
 import inspect
@@ -496,6 +498,155 @@ def check(ctx):
                              "(differs from a hedger with feature objects of its own)", case | {"step": i, "op": op}, key=f"shared_features:{op}",
                              detail={"shared": str(outs[0][1])[:200], "own": str(outs[1][1])[:200]})
                     break
+    # ------------------------------------------------------------------ history independence IV: the `hedge=` argument has a history too
+    # ONE hedger lives through calls with DIFFERENT hedging instruments (default, the underlier passed explicitly, listed derivatives written
+    # on the derivative's underlier), including fit(hedge=...) followed by calls with the default; the listed instruments live through
+    # re-simulations and dtype changes of their underlier made by ANOTHER owner (the hedged derivative's simulate() -- what compute_loss / price /
+    # fit do at every iteration --, the stock's own simulate(), to() of the stock / of another derivative).  Every result is compared with
+    # that of a NEW world: a newly constructed underlier holding bit-identical buffers, new derivatives, newly listed instruments and a fresh
+    # hedger with the same parameters, called with the corresponding `hedge=` argument under the same random seed.  Calls with the default
+    # are also compared with the same hedger called with hedge=[underlier] (the documented meaning of the default), and the price of a
+    # listed instrument with that of the newly listed one on the same series.  Own generator: the cases of the other parts do not move.
+    g4 = Gen(f"{ctx.seed}:hedge_history")
+    n4 = 16 if ctx.tier == "quick" else 160
+    HOPS = ["compute_hedge", "compute_pl", "compute_portfolio", "compute_loss", "price"]
+    HEAP_PROG = {"compute_pl": "pl"}
+    for it in range(n4):
+        prim = g4.choice(["BrownianStock", "BrownianStock", "HestonStock", "MertonJumpStock"])
+        step = g4.choice([1 / 250, 1 / 100])
+        pkw = {"cost": g4.choice([0.0, 1e-3]), "dt": step}
+        if prim != "HestonStock":
+            pkw["sigma"] = g4.choice([0.2, 0.3])
+        mk_u = lambda dtype_: getattr(I, prim)(dtype=dtype_, **pkw)
+        nT = g4.choice([3, 5, 6])
+        # hedged derivatives and listed instruments, all on the one underlier
+        dspecs = [(g4.choice(["EuropeanOption", "LookbackOption", "EuropeanBinaryOption"]), {"strike": g4.choice([0.95, 1.0, 1.05]), "maturity": nT * step})
+                  for _ in range(g4.choice([1, 2]))]
+        lspecs = []
+        for _ in range(g4.choice([1, 2])):
+            pk = g4.choice(["affine", "affine", "view", "square+ttm"])
+            lspecs.append(("EuropeanOption", {"call": g4.chance(0.7), "strike": g4.choice([0.9, 1.0, 1.1]), "maturity": g4.choice([nT, nT, nT + 2]) * step},
+                           pk, g4.choice([2.0, 0.5, 1.5]), g4.choice([0.25, -0.125, 1.0]), g4.choice([0.0, 1e-3, 1e-2])))
+
+        def mk_l(u_, spec):
+            oname, okw, pk, a_, b_, c_ = spec
+            o_ = getattr(I, oname)(u_, **okw)
+            if pk == "affine":
+                o_.list(lambda dd, a_=a_, b_=b_: dd.ul().spot * a_ + b_, cost=c_)
+            elif pk == "view":          # a pricer returning a VIEW of the underlier's buffer
+                o_.list(lambda dd: dd.ul().spot[:, :], cost=c_)
+            else:
+                o_.list(lambda dd, a_=a_: dd.ul().spot.square() * a_ + dd.time_to_maturity(), cost=c_)
+            return o_
+        stateful = g4.chance(0.5)
+        feats4 = ["log_moneyness", "time_to_maturity", "volatility"] + (["prev_hedge"] if stateful else [])
+        cur = g4.choice([f64, f64, f32])
+        torch.manual_seed(g4.randint(0, 10 ** 6))
+        model4 = torch.nn.Sequential(torch.nn.Linear(len(feats4), 3, dtype=cur), torch.nn.Tanh(), torch.nn.Linear(3, 1, dtype=cur))
+        crit4 = g4.choice([nn.EntropicRiskMeasure(), nn.ExpectedShortfall(0.3), nn.EntropicLoss()])
+        h_used = Hedger(model4, feats4, criterion=crit4)
+        u_used = mk_u(cur)
+        d_used = [getattr(I, sp[0])(u_used, **sp[1]) for sp in dspecs]
+        l_used = [mk_l(u_used, sp) for sp in lspecs]
+        KINDS = ["default", "default", "underlier"] + [f"listed{j}" for j in range(len(lspecs))] * 2
+
+        def hedge_arg(kind, u_, ls_):
+            return None if kind == "default" else [u_] if kind == "underlier" else [ls_[int(kind[6:])]]
+
+        def rnd_op():
+            op = g4.choice(["simulate", "simulate_stock", "to", "read_listed", "fit"] + HOPS + HOPS)
+            di = g4.randint(0, len(dspecs) - 1)
+            if op == "to":
+                return (op, g4.choice(["stock", "derivative", "listed"]), g4.choice(["float32", "float64"]), 0, 0)
+            if op == "read_listed":
+                return (op, g4.randint(0, len(lspecs) - 1), None, 0, 0)
+            if op == "simulate_stock":
+                return (op, di, None, g4.choice([1, 2, 5, 8]), g4.randint(0, 10 ** 6))
+            return (op, di, g4.choice(KINDS) if op != "simulate" else None, g4.choice([1, 2, 5, 8]), g4.randint(0, 10 ** 6))
+        # every history starts with: simulate, hedge with a listed instrument (its price is read), re-simulation through the hedged derivative, the
+        # listed price, fit with the listed instrument, re-simulation, calls with the default, the listed price; then a random tail.  op = (name, derivative | owner, hedge kind | dtype, n_paths, seed)
+        np0 = g4.choice([2, 5, 8])
+        ops = [("simulate", 0, None, np0, g4.randint(0, 10 ** 6)), (g4.choice(HOPS[:3]), 0, "listed0", np0, g4.randint(0, 10 ** 6)),
+               ("simulate", 0, None, np0, g4.randint(0, 10 ** 6)), ("read_listed", 0, None, 0, 0), ("fit", 0, "listed0", g4.choice([2, 5]), g4.randint(0, 10 ** 6)), ("simulate", g4.randint(0, len(dspecs) - 1), None, np0, g4.randint(0, 10 ** 6)),
+               (g4.choice(HOPS[:3]), 0, "default", np0, g4.randint(0, 10 ** 6)), ("read_listed", 0, None, 0, 0),
+               (g4.choice(HOPS[3:]), 0, "default", g4.choice([2, 5]), g4.randint(0, 10 ** 6))]
+        for _ in range(g4.randint(3, 6 if ctx.tier == "quick" else 16)):
+            ops.append(rnd_op())
+        case = {"primary": prim, "params": pkw, "derivatives": dspecs, "listed": lspecs, "stateful": stateful, "dtype0": str(cur),
+                "criterion": type(crit4).__name__, "ops": [o[:4] for o in ops]}
+        ctx.case(case, nontrivial=True, tag="hedge_history")
+        ctx.traces += 1
+        for i, (op, di, arg, npaths, seed) in enumerate(ops):
+            ctx.stats[f"hedge_hist:{op}"] += 1
+            if op == "simulate":          # through a hedged derivative: the listed instruments are not told
+                torch.manual_seed(seed)
+                d_used[di].simulate(n_paths=npaths)
+                continue
+            if op == "simulate_stock":
+                torch.manual_seed(seed)
+                u_used.simulate(n_paths=npaths, time_horizon=dspecs[di][1]["maturity"])
+                continue
+            if op == "to":
+                cur = f32 if arg == "float32" else f64
+                {"stock": u_used, "derivative": d_used[0], "listed": l_used[-1]}[di].to(cur)
+                h_used.to(cur)
+                continue
+            # the new world: bit-identical buffers, everything else newly constructed
+            u_new = mk_u(cur)
+            for bname, buf in list(u_used.named_buffers()):
+                u_new.register_buffer(bname, buf.detach().clone())
+            d_new = [getattr(I, sp[0])(u_new, **sp[1]) for sp in dspecs]
+            l_new = [mk_l(u_new, sp) for sp in lspecs]
+            h_new = Hedger(copy.deepcopy(h_used.model), feats4, criterion=copy.deepcopy(crit4))
+            h_new.train(h_used.training)
+            step_case = case | {"step": i, "op": op, "dtype": str(cur)}
+            if op == "read_listed":
+                with torch.no_grad():
+                    st, v = monitored("derivative.spot(listed)[underlier renewed by another owner]", lambda: l_used[di].spot, watch=[("listed", l_used[di])], case=step_case)
+                    got, want = (st, v), call_impl(lambda: l_new[di].spot)[:2]
+                if not same_result(got, want):
+                    ctx.fail("the price of a listed derivative depends on which series its underlier held before (differs from the same instrument newly listed on "
+                             "a new underlier holding bit-identical buffers)", step_case, key="listed_price_history",
+                             detail={"reused": f"{getattr(got[1], 'dtype', '')} {str(got[1])[:200]}", "fresh": f"{getattr(want[1], 'dtype', '')} {str(want[1])[:200]}"})
+                    break
+                continue
+
+            def run(hh, dd, hedge, label):
+                torch.manual_seed(seed)
+                if op == "fit":
+                    st, v, _ = call_impl(hh.fit, dd, hedge=hedge, n_epochs=2, n_paths=npaths, verbose=False, validation=False)
+                    return (st, torch.cat([p_.detach().reshape(-1) for p_ in hh.model.parameters()]) if st == "ok" else v)
+                if op in ("compute_loss", "price"):
+                    with torch.no_grad():
+                        st, v, _ = call_impl(getattr(hh, op), dd, hedge=hedge, n_paths=npaths, n_times=2)
+                    return (st, v)
+                with torch.no_grad():
+                    if hh is h_used:
+                        st, v = monitored(f"Hedger.{op}[hedge={label}]", getattr(hh, op), dd, hedge=hedge,
+                                          watch=[("derivative", dd), ("listed", l_used)], case=step_case, prog=HEAP_PROG.get(op))
+                    else:
+                        st, v, _ = call_impl(getattr(hh, op), dd, hedge=hedge)
+                return (st, v)
+            kk = "listed" if arg.startswith("listed") else arg
+            ctx.stats[f"hedge_hist:hedge={kk}"] += 1
+            r_used = run(h_used, d_used[di], hedge_arg(arg, u_used, l_used), kk)
+            r_new = run(h_new, d_new[di], hedge_arg(arg, u_new, l_new), kk)
+            ctx.stats[f"hedge_hist-result:{r_used[0]}"] += 1
+            if not same_result(r_used, r_new):
+                v1, v2 = r_used[1], r_new[1]
+                ctx.fail(("the parameters after fit depend" if op == "fit" else "the result of a hedging operation depends") + " on which hedging instruments the hedger was "
+                         "used / fitted with before, or on which series the underlier of a listed hedging instrument held before (differs from a fresh hedger "
+                         "with the same parameters on newly constructed instruments holding bit-identical buffers, same `hedge=` argument, same seed)",
+                         step_case | {"hedge": arg}, key=f"hedge_history:{op}:{kk}",
+                         detail={"reused": f"{getattr(v1, 'dtype', '')} {str(v1)[:200]}", "fresh": f"{getattr(v2, 'dtype', '')} {str(v2)[:200]}"})
+                break
+            if arg == "default" and op != "fit":
+                # the documented meaning of the default: the derivative's underlier(s)
+                r_exp = run(h_used, d_used[di], [u_used], "underlier")
+                if not same_result(r_used, r_exp):
+                    ctx.fail("a hedging operation with the default `hedge` gives another result than the same hedger with hedge=[the derivative's underlier]",
+                             step_case, key=f"default_hedge:{op}", detail={"default": str(r_used[1])[:200], "explicit": str(r_exp[1])[:200]})
+                    break
     # ------------------------------------------------------------------ model side: programs predicted pure
     return ctx.finish(
         rule="mutation sweep: every built-in feature (both modes, log variants, ModuleOutput), payoff, listed price incl. a pricer returning a view, "
@@ -505,7 +656,12 @@ def check(ctx):
              "(arguments from the signature) on contiguous / view-of-larger / transposed / row-view caller tensors; instrument reuse: one underlier with 1-2 "
              "derivatives through to(float32/float64), simulate, compute_hedge/pl/loss by long-lived BS/WW/linear hedgers vs newly constructed instruments "
              "with copied buffers; shared feature objects: one object bound to two (derivative, hedger) pairs, and two hedgers on one list of feature objects "
-             "used alternately, vs objects of their own; every case non-trivial; distinct = sha1 of canonical case")
+             "used alternately, vs objects of their own; hedge-argument histories: one hedger through compute_hedge / compute_pl / compute_portfolio / "
+             "compute_loss / price / fit with hedge in {default, [underlier], [listed derivative on the underlier]} (every history contains fit(hedge=[listed]) "
+             "followed by calls with the default), the underlier re-simulated through the hedged derivatives / directly and cast through stock / derivative / "
+             "listed instrument, vs a fresh hedger on a newly constructed underlier with bit-identical buffers, new derivatives and newly listed instruments "
+             "(same hedge argument, same seed; parameters after fit compared bitwise), default vs hedge=[underlier] on the same hedger, listed prices vs newly "
+             "listed ones; every case non-trivial; distinct = sha1 of canonical case")
 
 
 def nn_module_output(torch, mk, thr, g):
